@@ -14,6 +14,7 @@ RULES = {
     "C11.R6": "the dynamic weight path stays in the autograd graph: no no_grad / set_grad_enabled / inference_mode context and no .detach() / .data around the quantization of self.weight in qweight, forward or qforward",
     "C11.R9": "the twin's parameters keep their own requires_grad flags: from_module copies weight and bias under no_grad and does nothing else to them (rule C08.R4 re-checked: a blanket requires_grad_ makes the bias follow the weight's flag)",
     "C11.R10": "what a forward saved for its backward is not rewritten: the activation-scale buffers, which the modules hand as they are to the activations they quantize (and the linear function saves), are replaced by calibration, never written in place",
+    "C11.R13": "(= C05.R18 (a), value handlers) the result of a handler that is not a view owns its scale and its payload: a tensor saved for a backward is never rewritten through a result that shares its inner tensors (autograd's version counters do not see them)",
     "C11.R12": "a sum evaluated block by block covers every row: a loop over `range(n // k)` that addresses blocks `[i * k : (i + 1) * k]` is followed by the handling of the `n % k` remaining rows (or iterates over ceil-divided / stepped ranges) - in the functions the linear backward reaches and in the kernels",
     "C11.R11": "function-level interceptions keep the graph: a wrapper registered for a torch function runs ABOVE autograd, so whatever it returns is either the result of an autograd Function (`X.apply(...)`), of a differentiable library call, or of the function re-issued on other arguments - never a quantized tensor it assembled itself from payloads",
     "C11.R7": "the linear backward contracts dequantized values: no raw payload (._data) enters a matmul there (unscaled codes accumulate beyond the float16 range and would be rounded with another scale order than the forward)",
@@ -55,6 +56,11 @@ def run(chk):
         c13.saved_scale_mutation(chk, "C11.R10")
         wrappers_keep_graph(chk)
         block_loops_cover(chk)
+        # what a forward saved is a quantized tensor whose inner payload / scale carry no version counter: a result that shares them with its operand
+        # lets a later in-place op (written back since 683c0c3) rewrite the saved operand unnoticed
+        from . import c05
+        from ..registries import handlers as _handlers
+        c05.ownership_rule(AliasedCheck(chk, {"C05.R18": "C11.R13"}), _handlers(chk.repo), "C05.R18", views=False)
     raw_payload_backward(chk)
     # R4
     n = 0
